@@ -76,6 +76,35 @@ theorem akeys_areplace {β : Type} (n : String) (v : β) (l : List (String × β
 theorem akeys_append {β : Type} (l r : List (String × β)) : akeys (l ++ r) = akeys l ++ akeys r := by
   simp [akeys]
 
+theorem alookup_aeraseAll_same {β : Type} (n : String) (l : List (String × β)) :
+    alookup n (aeraseAll n l) = none := by
+  induction l with
+  | nil => rfl
+  | cons kv l ih =>
+    obtain ⟨k, v⟩ := kv
+    simp only [aeraseAll, List.filter_cons]
+    by_cases hk : k = n
+    · simp only [hk, ne_eq, not_true_eq_false, decide_false, Bool.false_eq_true, if_false]; exact ih
+    · simp only [ne_eq, hk, not_false_eq_true, decide_true, if_true, alookup, if_false]; exact ih
+
+theorem alookup_aeraseAll_other {β : Type} (n m : String) (l : List (String × β)) (h : m ≠ n) :
+    alookup m (aeraseAll n l) = alookup m l := by
+  induction l with
+  | nil => rfl
+  | cons kv l ih =>
+    obtain ⟨k, v⟩ := kv
+    unfold aeraseAll at ih ⊢
+    simp only [List.filter_cons]
+    by_cases hk : k = n
+    · subst hk
+      have : k ≠ m := fun e => h e.symm
+      simp only [ne_eq, not_true_eq_false, decide_false, Bool.false_eq_true, if_false, alookup, this]
+      exact ih
+    · simp only [ne_eq, hk, not_false_eq_true, decide_true, if_true, alookup]
+      split
+      · rfl
+      · exact ih
+
 theorem alookup_isSome_of_mem_akeys {β : Type} (n : String) (l : List (String × β)) :
     n ∈ akeys l → (alookup n l).isSome = true := by
   induction l with
